@@ -35,6 +35,13 @@ def mk_circuit_json(n, rows):
             l = fresh(); gates.append([l, 'ALWAYS_FALSE', []]); outs.append(l); continue
         if len(ones) == len(r):
             l = fresh(); gates.append([l, 'ALWAYS_TRUE', []]); outs.append(l); continue
+        # a projection (or its complement): the output is the input gate itself (a NOT of it)
+        proj = [i for i in range(n) if all(bool(r[idx]) == bool((idx >> (n - 1 - i)) & 1) for idx in range(len(r)))]
+        nproj = [i for i in range(n) if all(bool(r[idx]) != bool((idx >> (n - 1 - i)) & 1) for idx in range(len(r)))]
+        if proj:
+            outs.append(f'x{proj[0]}'); continue
+        if nproj:
+            l = fresh(); gates.append([l, 'NOT', [f'x{nproj[0]}']]); outs.append(l); continue
         terms = []
         for idx in ones:
             lits = []
